@@ -46,12 +46,20 @@ def fault_shards(tier):
         for a in one:
             if a[2]:
                 out.append({"rec": [list(a), [2, 1, 0]], "mclass": "33"})
-                out.append({"rec": [list(a), [1, 1, 1], [2, 1, 0]], "mclass": "gen"})
     return out
 
 
+def fault3_shards():
+    # three recipients, two of them dying, a healthy monitor: long budget (path count of three nested deliveries)
+    return [{"rec": [a, [1, 1, 1], [2, 1, 0]], "mclass": "gen"} for a in ([1, 1, 1], [1, 1, 2], [0, 1, 1])]
+
+
 def obligations(tier):
-    return [
+    extra = []
+    if tier != "quick":
+        extra.append(Obligation("write_side_two_failures_among_three", "harness.mgr_faults", "c07", fault3_shards(), cond_timeout=2400, path_timeout=120,
+                                encoded=ENC, bounds="3 recipients: two dying (header or payload half), one healthy monitor", symbolic="as write_side_failure_during_delivery"))
+    return extra + [
         Obligation("read_side_and_disconnect_and_refusal", "harness.mgr_step", "c07", step_shards(tier), cond_timeout=200, path_timeout=40,
                    reach="c07_reach", reach_shards=[{"ctrl": "data", "sstate": 2, "slog": 0, "recv": "short_d", "others": ["A", "N"], "names": [1, 1, 0, 2]}],
                    encoded=ENC,
